@@ -52,6 +52,24 @@ pub fn seeds(seed: u64, nrand: usize) -> Vec<(String, Vec<u8>)> {
     b.push(0);
     out.push(("base40+00".into(), b));
     out.push(("base40-last".into(), base[..39].to_vec()));
+    // every value of the last and of the first byte (line terminators, NUL, blanks, 0xff ...) after / before a
+    // common stem, and the stem with "\r\n": seeds are bytes, nothing in them is formatting
+    let stem = rand_bytes(&mut rng, 11);
+    for v in 0..=255u8 {
+        let mut b = stem.clone();
+        b.push(v);
+        out.push((format!("stem+last={v:02x}"), b));
+        let mut b = vec![v];
+        b.extend_from_slice(&stem);
+        out.push((format!("first={v:02x}+stem"), b));
+    }
+    out.push(("stem".into(), stem.clone()));
+    let mut b = stem.clone();
+    b.extend_from_slice(b"\r\n");
+    out.push(("stem+crlf".into(), b));
+    for v in [0x0au8, 0x0d, 0x20, 0x00] {
+        out.push((format!("only={v:02x}"), vec![v]));
+    }
     for i in 0..nrand {
         let len = rng.gen_range(0..80);
         out.push((format!("rand{i}"), rand_bytes(&mut rng, len)));
